@@ -397,7 +397,11 @@ func (s *sim) applyOp(tx database.Tx, o *txOp, isReal bool) []string {
 		return []string{fmt.Sprint(ok), errCode(err)}
 	case opHasMany:
 		oks, err := tx.HasBlocks(s.hashList(o.blks))
-		return []string{fmt.Sprint(oks), errCode(err)}
+		out := make([]string, 0, len(oks)+1)
+		for _, ok := range oks {
+			out = append(out, fmt.Sprint(ok))
+		}
+		return append(out, errCode(err))
 	case opFetch:
 		b, err := tx.FetchBlock(&wl.hashes[o.blk])
 		if err != nil {
@@ -739,7 +743,7 @@ func (s *sim) cursorDeviationKey(o *txOp, m, r []string) string {
 		case cFirst, cLast, cSeek:
 			sawAbs = true
 		case cDelete:
-			if sawAbs {
+			if sawAbs && j < len(r) && r[j] == "D:ok" {
 				return "cursor-stale-reseek-after-delete"
 			}
 		}
